@@ -107,6 +107,7 @@ func (m *ValueMap) Load(key string) (value *VMValue, ok bool) {
 	read, _ := m.read.Load().(readOnlyValueMap)
 	e, ok := read.m[key]
 	if !ok && read.amended {
+		verifYield("vm.load.slow")
 		m.mu.Lock()
 		// Avoid reporting a spurious miss if m.dirty got promoted while we were
 		// blocked on m.mu. (If further loads of the same key will not miss, it's
@@ -131,6 +132,7 @@ func (m *ValueMap) Load(key string) (value *VMValue, ok bool) {
 func (m *ValueMap) Length() int {
 	read, _ := m.read.Load().(readOnlyValueMap)
 	if read.amended {
+		verifYield("vm.length.slow")
 		m.mu.Lock()
 		defer m.mu.Unlock()
 		return len(m.dirty)
@@ -145,6 +147,7 @@ func (m *ValueMap) Clear() {
 		return
 	}
 
+	verifYield("vm.clear.slow")
 	m.mu.Lock()
 	defer m.mu.Unlock()
 
@@ -177,6 +180,7 @@ func (m *ValueMap) Store(key string, value *VMValue) {
 		return
 	}
 
+	verifYield("vm.store.slow")
 	m.mu.Lock()
 	read, _ = m.read.Load().(readOnlyValueMap)
 	if e, ok := read.m[key]; ok {
@@ -244,6 +248,7 @@ func (m *ValueMap) LoadOrStore(key string, value *VMValue) (actual *VMValue, loa
 		}
 	}
 
+	verifYield("vm.loadorstore.slow")
 	m.mu.Lock()
 	read, _ = m.read.Load().(readOnlyValueMap)
 	if e, ok := read.m[key]; ok {
@@ -307,6 +312,7 @@ func (m *ValueMap) LoadAndDelete(key string) (value *VMValue, loaded bool) {
 	read, _ := m.read.Load().(readOnlyValueMap)
 	e, ok := read.m[key]
 	if !ok && read.amended {
+		verifYield("vm.loadanddelete.slow")
 		m.mu.Lock()
 		read, _ = m.read.Load().(readOnlyValueMap)
 		e, ok = read.m[key]
@@ -321,6 +327,7 @@ func (m *ValueMap) LoadAndDelete(key string) (value *VMValue, loaded bool) {
 		m.mu.Unlock()
 	}
 	if ok {
+		verifYield("vm.delete.entry")
 		return e.delete()
 	}
 	return value, false
@@ -365,6 +372,7 @@ func (m *ValueMap) Range(f func(key string, value *VMValue) bool) {
 		// (assuming the caller does not break out early), so a call to Range
 		// amortizes an entire copy of the map: we can promote the dirty copy
 		// immediately!
+		verifYield("vm.range.promote")
 		m.mu.Lock()
 		read, _ = m.read.Load().(readOnlyValueMap)
 		if read.amended {
@@ -377,6 +385,7 @@ func (m *ValueMap) Range(f func(key string, value *VMValue) bool) {
 	}
 
 	for k, e := range read.m {
+		verifYield("vm.range.iter")
 		v, ok := e.load()
 		if !ok {
 			continue
